@@ -104,3 +104,32 @@ _add('C03',
      'the arrival date of the visit in progress; visits and service/renege/reroute records are in bijection; baulk/rejection records are the only '
      'record; nobody is in flight between events; the true final location equals the end of the recorded journey. K1: observed runs on all regions '
      '(blocking, pre-emption, reroute, reneging, schedules, slotted, PS).')
+_add('C19',
+     'Sub/PS.v (Coq, over Q): executable model of one processor-sharing node (capacity K in N or infinity, threshold R, arbitrary finite '
+     'arrival list with rational dates and requirements) mirroring processor_sharing.py method by method. Proved for every reachable state of '
+     'every run (any number of customers/events): ps_rate + rate_min (between consecutive events each customer in service progresses at '
+     'R/max(k,R) = min(1,R/k), k = number in service); ps_work (a customer departs exactly when its remaining work is 0 and the work it received, '
+     'summed over the elapsed intervals, equals its requirement) and ps_no_early (remaining work >= 0 while in service; received + remaining = '
+     'requirement); ps_capacity (at most K in service, they are the head of the line, occupancy = min(n,K), service starts happen in arrival '
+     'order); ps_fifo_equiv (K = infinity, R = 1: total remaining work equals that of the single-server FIFO/Lindley model at every event '
+     'instant, so both run out of work at the same instants) with fifo_work_closed; ps_complete (the extracted run ends with everybody departed '
+     'and is a reachable state). K1 = K2: the real ciw.PSNode is driven on exact rationals (int inter-arrivals, fractions.Fraction requirements '
+     'and threshold) and every customer\'s arrival/start/exit date and the node slice (time_left, with_server, end dates, last update, '
+     'last_occupancy) at every instant are compared exactly (Qeq_bool) with the extracted model, for single nodes under two tie-break seeds '
+     'and for every PS node inside small exact networks (feedback, two classes); a ciw.Node twin checks the FIFO clause on the implementation.',
+     'C19_accept_sound states what acceptance means (the records carry the dates of PS.ps_run). The model is tied to /repo by this exact '
+     'differential comparison, not by a proof about processor_sharing.py. Ties between simultaneous events are resolved at random by Ciw; the '
+     'model lets departures go first; dates and per-instant states do not depend on the resolution (checked, not proved). Scope: one priority '
+     'class at the PS node, no blocking into or out of it, R > 0, K >= 1; float rounding is outside the model (the float PSNode is not compared).',
+     technique='Coq theorems about a hand-written executable model over Q + exact differential testing of the real PSNode on rationals (translation-validation style)')
+_add('C09',
+     'Routing.v (Coq): model of auxiliary.random_choice with rc_weighted_positive (a positive draw only selects entries of positive '
+     'probability), rc_weighted_total (no IndexError when the probabilities sum to 1), rc_weighted_refuted_at_zero (finding F-09a: a draw of exactly 0 '
+     'selects a zero-probability first entry) and argmins_spec (JSQ/LB candidates are exactly the minimisers). T1 C09_sound: in an accepted run every '
+     'routing / class-change decision is allowed by the specification read from the configuration: positive probability (TransitionMatrix, Probabilistic, '
+     'class-change matrices), Direct/Leave/jockeying determined, Cycle in step, process-based routes followed in order, flexible routes within the subset '
+     'and consumed per rule, JSQ/LB towards a listed destination minimal for the TRUE waiting line / population at that instant, priority = mapping[class] '
+     'after every event. K1: observed runs with every router kind; strict mode also ties each choice to the model evaluated on the logged draw.',
+     'Mechanism clauses (exact index from the draw; counters = true lines) are correspondence obligations; open findings F-09a, F-09b are reported as '
+     'KNOWN-FINDING. Probabilities are eighths (exact in binary64); one-ulp effects of float probabilities are outside the model.',
+     technique='Coq theorems about a hand-written model of random_choice/JSQ + acceptor; conformance of real traces and stepwise correspondence of each decision with the model')
